@@ -2,6 +2,7 @@
 #![allow(unused_imports, unused_variables, unused_mut, dead_code, unused_parens, unused_braces, non_snake_case)]
 use vstd::prelude::*;
 use core::cmp::Ordering;
+use core::slice;
 verus! {
 
 // ---- theory: base.rs ----
@@ -271,23 +272,6 @@ pub struct PurlParts {
     pub qualifiers: Qualifiers,
     pub subpath: SmallString,
 }
-// ---- unit T.PackageType  <= purl/src/package_type.rs:143 ----
-#[derive(Clone, Copy)]
-pub enum PackageType {
-    Cargo,
-    Gem,
-    Golang,
-    Maven,
-    Npm,
-    NuGet,
-    PyPI,
-}
-// ---- unit T.PackageError  <= purl/src/package_type.rs:212 ----
-pub enum PackageError {
-    MissingRequiredField(PurlField),
-    Parse( ParseError),
-    UnsupportedType,
-}
 // ---- unit theory.qualkeys  <= (contracts):0 ----
 // ---- qualifier keys (C04, C05, C11: ASCII letters, digits, '.', '-', '_'; non-empty) ----
 pub open spec fn key_char(c: char) -> bool { ascii_alnum_c(c) || c == '.' || c == '-' || c == '_' }
@@ -462,67 +446,6 @@ pub open spec fn shape_rel(t0: Seq<char>, p0: PurlParts, t1: Seq<char>, p1: Purl
 }
 
 
-// ---- unit theory.pkgtype  <= (contracts):0 ----
-// ---- vocabulary for the package-type rules, written from C08's wording ----
-pub open spec fn dash(c: char) -> bool { c == '-' || c == '_' || c == '.' }
-
-/// "lower-cased with every maximal run of '-', '_' and '.' replaced by a single '-'"
-pub open spec fn pypi_norm(s: Seq<char>) -> Seq<char> decreases s.len() {
-    if s.len() == 0 { seq![] }
-    else if dash(s.last()) {
-        if s.len() >= 2 && dash(s[s.len() - 2]) { pypi_norm(s.drop_last()) } else { pypi_norm(s.drop_last()).push('-') }
-    } else { pypi_norm(s.drop_last()) + u_to_lower(s.last()) }
-}
-
-pub proof fn lemma_pypi_no_dash(s: Seq<char>)
-    requires forall|i: int| 0 <= i < s.len() ==> !dash(#[trigger] s[i])
-    ensures pypi_norm(s) == lower_seq(s)
-    decreases s.len()
-{
-    if s.len() > 0 { lemma_pypi_no_dash(s.drop_last()); }
-}
-
-pub open spec fn type_name(t: PackageType) -> Seq<char> {
-    match t {
-        PackageType::Cargo => seq!['c', 'a', 'r', 'g', 'o'],
-        PackageType::Gem => seq!['g', 'e', 'm'],
-        PackageType::Golang => seq!['g', 'o', 'l', 'a', 'n', 'g'],
-        PackageType::Maven => seq!['m', 'a', 'v', 'e', 'n'],
-        PackageType::Npm => seq!['n', 'p', 'm'],
-        PackageType::NuGet => seq!['n', 'u', 'g', 'e', 't'],
-        PackageType::PyPI => seq!['p', 'y', 'p', 'i'],
-    }
-}
-
-/// What PackageType::finish may do (C08): the per-type name rule, the maven namespace rule, nothing else touched.
-pub open spec fn pkg_finish_rel(t0: PackageType, p0: PurlParts, t1: PackageType, p1: PurlParts, r: Result<(), PackageError>) -> bool {
-    t1 == t0
-    && p1.namespace == p0.namespace && p1.version == p0.version && p1.qualifiers == p0.qualifiers && p1.subpath == p0.subpath
-    && match t0 {
-        PackageType::Maven =>
-            if all_char(p0.namespace@, '/') { r == Err::<(), PackageError>(PackageError::MissingRequiredField(PurlField::Namespace)) }
-            else { r is Ok && p1.name == p0.name },
-        PackageType::NuGet => r is Ok && p1.name@ == lower_seq(p0.name@),
-        PackageType::PyPI => r is Ok && p1.name@ == pypi_norm(p0.name@),
-        _ => r is Ok && p1.name == p0.name,
-    }
-}
-
-/// `Cow::from(&'static str)` (std: `Cow::Borrowed(s)`), for the stub Cow
-pub fn x_cow_from_str<'a>(s: &'a str) -> (r: Cow<'a, str>)
-    ensures r@ == s@
-{ Cow::Borrowed(s) }
-
-// R9: what thiserror's `#[from]` on `PackageError::Parse` generates (derive semantics, assumed)
-impl vstd::std_specs::convert::FromSpecImpl<ParseError> for PackageError {
-    open spec fn obeys_from_spec() -> bool { true }
-    open spec fn from_spec(e: ParseError) -> Self { PackageError::Parse(e) }
-}
-impl From<ParseError> for PackageError {
-    fn from(e: ParseError) -> (r: Self)
-    { PackageError::Parse(e) }
-}
-
 // ---- unit T.PurlShape  <= purl/src/lib.rs:111 ----
 pub trait PurlShape: Sized {
     type Error: From<ParseError>;
@@ -536,106 +459,256 @@ pub trait PurlShape: Sized {
             // proved to preserve the representation invariant (group `qual`); assumed for user-written hooks
             wf_seq(old(parts).qualifiers.qualifiers@) ==> wf_seq(final(parts).qualifiers.qualifiers@);
 }
-// ---- unit U-lower.lowercase_in_place  <= purl/src/lib.rs:390 ----
+// ---- unit T.GenericPurl  <= purl/src/lib.rs:251 ----
+pub struct GenericPurl<T> {
+    pub package_type: T,
+    pub parts: PurlParts,
+}
+// ---- unit theory.split_wrappers  <= (contracts):0 ----
+/// `Some(s).filter(|v| !v.is_empty())`
 #[verifier::external_body]
-pub fn lowercase_in_place(s: &mut SmallString)
-    ensures final(s)@ == lower_seq(old(s)@)
+pub fn x_some_nonempty<'a>(s: &'a str) -> (r: Option<&'a str>)
+    ensures s@.len() == 0 ==> r is None, s@.len() > 0 ==> r is Some && r->Some_0@ == s@
+{ Some(s).filter(|v| !v.is_empty()) }
+
+
+// ---- unit T.QualifierKey.Deref  <= purl/src/qualifiers.rs:340 ----
+impl core::ops::Deref for QualifierKey {
+    type Target = str;
+    fn deref(&self) -> (r: &str)
+        ensures r@ == self.0@
+    {
+        &self.0
+    }
+}
+// ---- unit theory.fmt  <= (contracts):0 ----
+// ---- R9: stub of fmt::Formatter (ghost output) and of the escape sets; the canonical shape written from C03 ----
+#[verifier::external_body]
+pub struct Formatter { _p: core::marker::PhantomData<u8> }
+impl Formatter { pub uninterp spec fn out(&self) -> Seq<char>; }
+pub struct FmtError;
+pub type FmtResult = Result<(), FmtError>;
+
+/// the four escape sets of format.rs (their per-byte content is proved by Kani on the real constants)
+#[derive(Clone, Copy)]
+pub enum SetId { Path, Segment, Query, Fragment }
+pub const PURL_PATH: SetId = SetId::Path;
+pub const PURL_PATH_SEGMENT: SetId = SetId::Segment;
+pub const PURL_QUERY: SetId = SetId::Query;
+pub const PURL_FRAGMENT: SetId = SetId::Fragment;
+
+/// `utf8_percent_encode(s, SET).to_string()` (dependency; its table is the Kani-proved one, applied byte-wise)
+pub uninterp spec fn enc(set: SetId, s: Seq<char>) -> Seq<char>;
+
+#[verifier::external_body]
+pub fn x_write_str(f: &mut Formatter, s: &str) -> (r: FmtResult)
+    ensures r is Ok ==> final(f).out() == old(f).out() + s@
 { unimplemented!() }
-// ---- unit U-pypi.fix_pypi_name  <= purl/src/package_type.rs:271 ----
-exec const DASH_CHARACTERS: &'static [char] ensures DASH_CHARACTERS@ =~= seq!['-', '_', '.'] { &['-', '_', '.'] }
-pub fn fix_pypi_name(name: &mut SmallString)
-    ensures final(name)@ == pypi_norm(old(name)@)
-{
-    
-    if x_str_contains_any(name.as_str(), DASH_CHARACTERS) {
-        let mut result = SmallString::new();
-        let mut in_dash = false;
-        for c in it: name.chars() 
+/// `{}` of a `Display` value that prints its text (Cow<str>, &str, char)
+#[verifier::external_body]
+pub fn x_write_display<D: TextOf>(f: &mut Formatter, d: &D) -> (r: FmtResult)
+    ensures r is Ok ==> final(f).out() == old(f).out() + d.text_of()
+{ unimplemented!() }
+/// `{}` of `utf8_percent_encode(s, SET)`
+#[verifier::external_body]
+pub fn x_write_encoded(f: &mut Formatter, s: &str, set: SetId) -> (r: FmtResult)
+    ensures r is Ok ==> final(f).out() == old(f).out() + enc(set, s@)
+{ unimplemented!() }
 
-    invariant
-        name@ == old(name)@, it.seq() == name@,
-        result@ == pypi_norm(name@.take(it.index@ as int)),
-        in_dash == (it.index@ > 0 && dash(name@[it.index@ - 1])),
+pub trait TextOf { spec fn text_of(&self) -> Seq<char>; }
+impl<'a> TextOf for Cow<'a, str> { open spec fn text_of(&self) -> Seq<char> { self@ } }
+impl TextOf for char { open spec fn text_of(&self) -> Seq<char> { seq![*self] } }
+
+/// documented panic: formatting a PURL whose type reports an invalid type string
+#[verifier::external_body]
+pub fn x_panic() -> !
+    requires false
+{ panic!() }
+
+pub open spec fn opt_part(present: bool, s: Seq<char>) -> Seq<char> { if present { s } else { Seq::<char>::empty() } }
+
+/// [`?` + key=value pairs joined by `&`, in storage order]
+pub open spec fn quals_text(v: Seq<(QualifierKey, SmallString)>) -> Seq<char> decreases v.len() {
+    if v.len() == 0 { Seq::<char>::empty() }
+    else {
+        quals_text(v.drop_last()) + seq![if v.len() == 1 { '?' } else { '&' }]
+            + enc(SetId::Query, v.last().0.0@) + seq!['='] + enc(SetId::Query, v.last().1@)
+    }
+}
+
+/// C03: `pkg:` + type + `/` + [namespace + `/`] + name + [`@` + version] + [`?` + pairs] + [`#` + subpath], absent parts omitted
+pub open spec fn canon_spec(ty: Seq<char>, p: PurlParts) -> Seq<char> {
+    "pkg:"@ + ty + "/"@
+    + opt_part(p.namespace@.len() > 0, enc(SetId::Path, p.namespace@) + "/"@)
+    + enc(SetId::Segment, p.name@)
+    + opt_part(p.version@.len() > 0, "@"@ + enc(SetId::Path, p.version@))
+    + quals_text(p.qualifiers.qualifiers@)
+    + opt_part(p.subpath@.len() > 0, "#"@ + enc(SetId::Fragment, p.subpath@))
+}
+
+// staged prefixes of canon_spec (one per write group), so that each stage closes with one extensional equality
+pub open spec fn cs1(ty: Seq<char>) -> Seq<char> { "pkg:"@ + ty + "/"@ }
+pub open spec fn cs2(ty: Seq<char>, p: PurlParts) -> Seq<char> { cs1(ty) + opt_part(p.namespace@.len() > 0, enc(SetId::Path, p.namespace@) + "/"@) }
+pub open spec fn cs3(ty: Seq<char>, p: PurlParts) -> Seq<char> { cs2(ty, p) + enc(SetId::Segment, p.name@) }
+pub open spec fn cs4(ty: Seq<char>, p: PurlParts) -> Seq<char> { cs3(ty, p) + opt_part(p.version@.len() > 0, "@"@ + enc(SetId::Path, p.version@)) }
+pub open spec fn cs5(ty: Seq<char>, p: PurlParts) -> Seq<char> { cs4(ty, p) + quals_text(p.qualifiers.qualifiers@) }
+pub proof fn lemma_canon_stages(ty: Seq<char>, p: PurlParts)
+    ensures canon_spec(ty, p) == cs5(ty, p) + opt_part(p.subpath@.len() > 0, "#"@ + enc(SetId::Fragment, p.subpath@))
+{ }
+
+// ---- unit U-vtype.is_valid_package_type  <= purl/src/lib.rs:380 ----
+#[verifier::external_body]
+pub fn is_valid_package_type(package_type: &str) -> (r: bool)
+    ensures r == valid_type(package_type@)
+{ unimplemented!() }
+impl Qualifiers {
+// ---- unit U-qmap.is_empty  <= purl/src/qualifiers.rs:83 ----
+#[verifier::external_body]
+pub fn is_empty(&self) -> (r: bool)
+        ensures r == (self.qualifiers@.len() == 0)
+{ unimplemented!() }
+}
+// ---- unit T.Iter  <= purl/src/qualifiers.rs:489 ----
+pub struct Iter<'a>(pub slice::Iter<'a, (QualifierKey, SmallString)>);
+// ---- unit spec.Iter  <= (contracts):0 ----
+
+impl<'a> Iter<'a> {
+    /// the pairs still to be yielded
+    #[verifier::prophetic]
+    pub open spec fn rem(&self) -> Seq<&'a (QualifierKey, SmallString)> { vstd::std_specs::iter::IteratorSpec::remaining(&self.0) }
+}
+
+impl Qualifiers {
+// ---- unit U-qmap.into_iter  <= purl/src/qualifiers.rs:301 ----
+#[verifier::external_body]
+pub fn into_iter(&self) -> (r: Iter<'_>)
+        ensures r.rem().len() == self.qualifiers@.len(),
+            forall|i: int| 0 <= i < self.qualifiers@.len() ==> *(#[trigger] r.rem()[i]) == self.qualifiers@[i]
+{ unimplemented!() }
+}
+impl<'a> Iter<'a> {
+// ---- unit U-qmap.Iter.next  <= purl/src/qualifiers.rs:494 ----
+#[verifier::external_body]
+pub fn next(&mut self) -> (r: Option<(&'a QualifierKey, &'a str)>)
+        ensures
+            old(self).rem().len() == 0 ==> r is None,
+            old(self).rem().len() > 0 ==> r is Some
+                && r->Some_0.0.0@ == old(self).rem()[0].0.0@ && r->Some_0.1@ == old(self).rem()[0].1@
+                && final(self).rem() == old(self).rem().skip(1),
+{ unimplemented!() }
+}
+impl<T> GenericPurl<T> {
+// ---- unit U-acc.package_type  <= purl/src/lib.rs:283 ----
+#[verifier::external_body]
+pub fn package_type(&self) -> (r: &T)
+        ensures *r == self.package_type
+{ unimplemented!() }
+// ---- unit U-acc.namespace  <= purl/src/lib.rs:289 ----
+#[verifier::external_body]
+pub fn namespace(&self) -> (r: Option<&str>)
+        ensures self.parts.namespace@.len() == 0 ==> r is None,
+            self.parts.namespace@.len() > 0 ==> r is Some && r->Some_0@ == self.parts.namespace@
+{ unimplemented!() }
+// ---- unit U-acc.name  <= purl/src/lib.rs:295 ----
+#[verifier::external_body]
+pub fn name(&self) -> (r: &str)
+        ensures r@ == self.parts.name@
+{ unimplemented!() }
+// ---- unit U-acc.version  <= purl/src/lib.rs:301 ----
+#[verifier::external_body]
+pub fn version(&self) -> (r: Option<&str>)
+        ensures self.parts.version@.len() == 0 ==> r is None,
+            self.parts.version@.len() > 0 ==> r is Some && r->Some_0@ == self.parts.version@
+{ unimplemented!() }
+// ---- unit U-acc.subpath  <= purl/src/lib.rs:313 ----
+#[verifier::external_body]
+pub fn subpath(&self) -> (r: Option<&str>)
+        ensures self.parts.subpath@.len() == 0 ==> r is None,
+            self.parts.subpath@.len() > 0 ==> r is Some && r->Some_0@ == self.parts.subpath@
+{ unimplemented!() }
+}
+// ---- unit U-fmt.fmt  <= purl/src/format.rs:34 ----
+#[verifier::loop_isolation(false)]
+pub fn purl_fmt<T: PurlShape>(this: &GenericPurl<T>, f: &mut Formatter) -> (r: FmtResult)
+    requires valid_type(this.package_type.type_text())      // documented panic: a user type reporting an invalid type string
+    ensures r is Ok ==> final(f).out() == old(f).out() + canon_spec(this.package_type.type_text(), this.parts)
 {
-            
-            proof {
-                let nxt = name@.take(it.index@ + 1);
-                assert(nxt.drop_last() == name@.take(it.index@ as int));
-                assert(nxt.last() == c);
-                if it.index@ > 0 { assert(nxt[nxt.len() - 2] == name@[it.index@ - 1]); }
-            }
-if x_slice_contains(DASH_CHARACTERS, &c) {
-                if !in_dash {
-                    result.push('-');
-                    in_dash = true;
-                }
-            } else {
-                in_dash = false;
-                x_extend_lower(&mut result, c);
-            }
+        let ghost start = f.out();
+        let ghost ty = this.package_type.type_text();
+        let ghost p = this.parts;
+        proof { reveal_strlit("="); assert("="@ =~= seq!['=']); }
+
+        let package_type = this.package_type().package_type();
+        if !is_valid_package_type(&package_type) {
+            x_panic();
+        }
+        { x_write_str(f, "pkg:")?; x_write_display(f, &package_type)?; x_write_str(f, "/")?; };
+        
+        proof { assert(f.out() =~= start + cs1(ty)); }
+if let Some(namespace) = this.namespace() {
+            { x_write_encoded(f, namespace, PURL_PATH)?; x_write_str(f, "/")?; };
         }
         
-        proof { assert(name@.take(name@.len() as int) == name@); }
-*name = result;
-    } else {
+        proof { assert(f.out() =~= start + cs2(ty, p)); }
+{ x_write_encoded(f, this.name(), PURL_PATH_SEGMENT)?; };
         
-        proof { lemma_pypi_no_dash(name@); }
-lowercase_in_place(name)
-    }
-}
-impl PackageType {
-// ---- unit U-ptname.name  <= purl/src/package_type.rs:166 ----
-pub const fn name(&self) -> (r: &'static str)
-        ensures r@ == type_name(*self)
-{
-        proof { reveal_strlit("cargo"); reveal_strlit("gem"); reveal_strlit("golang"); reveal_strlit("maven");
-                reveal_strlit("npm"); reveal_strlit("nuget"); reveal_strlit("pypi"); }
-
-        match self {
-            PackageType::Cargo => "cargo",
-            PackageType::Gem => "gem",
-            PackageType::Golang => "golang",
-            PackageType::Maven => "maven",
-            PackageType::Npm => "npm",
-            PackageType::NuGet => "nuget",
-            PackageType::PyPI => "pypi",
+        proof { assert(f.out() =~= start + cs3(ty, p)); }
+if let Some(version) = this.version() {
+            { x_write_str(f, "@")?; x_write_encoded(f, version, PURL_PATH)?; };
         }
-    }
-}
-impl PurlShape for PackageType {
-// ---- unit spec.PackageType  <= (contracts):0 ----
-    type Error = PackageError;
-    open spec fn type_text(&self) -> Seq<char> { type_name(*self) }
-    open spec fn finish_rel(t0: Self, p0: PurlParts, t1: Self, p1: PurlParts, r: Result<(), PackageError>) -> bool {
-        pkg_finish_rel(t0, p0, t1, p1, r)
-    }
-// ---- unit U-ptname.package_type  <= purl/src/package_type.rs:246 ----
-fn package_type(&self) -> (r: Cow<str>)
-{
-        x_cow_from_str(self.name())
-    }
-// ---- unit U-ptfin.finish  <= purl/src/package_type.rs:250 ----
-fn finish(&mut self, parts: &mut PurlParts) -> (r: Result<(), Self::Error>)
-{
-        proof { lemma_trim_empty_iff_all(parts.namespace@, '/'); }
+        
+        proof { assert(f.out() =~= start + cs4(ty, p)); }
+if !this.parts.qualifiers.is_empty() {
+            let mut prefix = '?';
+            { let mut iter_ = (&this.parts.qualifiers).into_iter();
+            let ghost qs = this.parts.qualifiers.qualifiers@;
+            let ghost base = f.out();
+            let ghost mut gi: int = 0;
+            proof { assert(qs.take(0) =~= Seq::<(QualifierKey, SmallString)>::empty()); assert(base + quals_text(qs.take(0)) =~= base); }
 
-        match self {
-            PackageType::Cargo | PackageType::Gem | PackageType::Npm | PackageType::Golang => {},
-            PackageType::Maven => {
-                if x_trim_matches(parts.namespace.as_str(), '/').is_empty() {
-                    return Err(PackageError::MissingRequiredField(PurlField::Namespace));
+ loop 
+
+                invariant
+                    qs == this.parts.qualifiers.qualifiers@,
+                    0 <= gi <= qs.len(), iter_.rem().len() == qs.len() - gi,
+                    forall|j: int| 0 <= j < iter_.rem().len() ==> *(#[trigger] iter_.rem()[j]) == qs[gi + j],
+                    prefix == (if gi == 0 { '?' } else { '&' }),
+                    f.out() == base + quals_text(qs.take(gi)),
+                    gi == qs.len() ==> f.out() == base + quals_text(qs),
+                decreases qs.len() - gi,
+{
+ match iter_.next() { Some((k, v)) => {
+                
+                let ghost pre_out = f.out();
+                let ghost pfx = prefix;
+{ x_write_display(f, &prefix)?; x_write_encoded(f, k, PURL_QUERY)?; x_write_str(f, "=")?; x_write_encoded(f, v, PURL_QUERY)?; };
+                prefix = '&';
+                proof {
+                    assert(qs.take(gi + 1).drop_last() == qs.take(gi));
+                    assert(qs.take(gi + 1).last() == qs[gi]);
+                    let kv = qs[gi];
+                    assert(k.0@ == kv.0.0@ && v@ == kv.1@);
+                    assert(f.out() =~= pre_out + seq![pfx] + enc(SetId::Query, kv.0.0@) + seq!['='] + enc(SetId::Query, kv.1@));
+                    assert(f.out() =~= base + quals_text(qs.take(gi + 1)));
+                    if gi + 1 == qs.len() { assert(qs.take(gi + 1) =~= qs); }
+                    gi = gi + 1;
                 }
-            },
-            PackageType::NuGet => {
-                lowercase_in_place(&mut parts.name);
-            },
-            PackageType::PyPI => {
-                fix_pypi_name(&mut parts.name);
-            },
+
+            }, None => break, }
+ } }
         }
-        Ok(())
+        
+        proof {
+            if p.qualifiers.qualifiers@.len() == 0 { assert(quals_text(p.qualifiers.qualifiers@) =~= Seq::<char>::empty()); }
+            assert(f.out() =~= start + cs5(ty, p));
+        }
+if let Some(subpath) = this.subpath() {
+            { x_write_str(f, "#")?; x_write_encoded(f, subpath, PURL_FRAGMENT)?; };
+        }
+        
+        proof { lemma_canon_stages(ty, p); assert(f.out() =~= start + canon_spec(ty, p)); }
+Ok(())
     }
-}
 
 // ---- consistency canary: must be REJECTED; if it verifies the assumptions are contradictory ----
 pub proof fn verif_canary_must_fail()
